@@ -158,7 +158,7 @@ fn mask_now_text(text: &str) -> String {
     let flush = |digits: &mut String, out: &mut String| {
         if !digits.is_empty() {
             match digits.parse::<u64>() {
-                Ok(n) if n.saturating_add(60) >= now && n <= now + 60 => out.push_str("<NOW>"),
+                Ok(n) if n.saturating_add(600) >= now && n <= now + 60 => out.push_str("<NOW>"),
                 _ => out.push_str(digits),
             }
             digits.clear();
